@@ -209,13 +209,13 @@ class Between(Operator.Operator):
 
         if isinstance(operand, Dataset):
             for measure in operand.get_measures():
-                cls.validate_type_compatibility(measure.data_type, from_.data_type)
-                cls.validate_type_compatibility(measure.data_type, to.data_type)
+                cls.type_validation(measure.data_type, from_.data_type)
+                cls.type_validation(measure.data_type, to.data_type)
                 if isinstance(result, Dataset):
                     cls.apply_return_type_dataset(result, operand)
         else:
-            cls.validate_type_compatibility(operand.data_type, from_.data_type)
-            cls.validate_type_compatibility(operand.data_type, to.data_type)
+            cls.type_validation(operand.data_type, from_.data_type)
+            cls.type_validation(operand.data_type, to.data_type)
 
         return result
 
